@@ -118,6 +118,14 @@ reg("masked_select", _c("mask", lambda ctx, side: ((mask(ctx),), {})))
 reg("copy_ update update_", _c("same-structure", lambda ctx, side: binary(ctx, side)),
     _c("bare-td", lambda ctx, side: ((ctx.other_td(1),), {})),
     _c("dict", lambda ctx, side: (({"x": torch.zeros(*BATCH, 4)},), {})))
+reg("update", _c("keys-to-update", lambda ctx, side: ((ctx.other(side, 1),), {"keys_to_update": ["x"]})),
+    _c("keys-to-update-nested", lambda ctx, side: ((ctx.other(side, 1),), {"keys_to_update": [("n", "y")]})),
+    _c("inplace", lambda ctx, side: ((ctx.other(side, 1),), {"inplace": True})),
+    _c("clone", lambda ctx, side: ((ctx.other(side, 1),), {"clone": True})),
+    _c("bare-td-clone", lambda ctx, side: ((ctx.other_td(1),), {"clone": True})),
+    _c("bare-td-keys", lambda ctx, side: ((ctx.other_td(1),), {"keys_to_update": ["x"]})))
+reg("update_", _c("keys-to-update", lambda ctx, side: ((ctx.other(side, 1),), {"keys_to_update": ["x"]})),
+    _c("bare-td-clone", lambda ctx, side: ((ctx.other_td(1),), {"clone": True})))
 reg("copy_at_ update_at_", _c("same-structure-idx", lambda ctx, side: ((ctx.other(side, 1)[0], 0), {})),
     _c("bare-td-idx", lambda ctx, side: ((ctx.other_td(1)[0], 0), {})))
 reg("expand_as", _c("bigger", lambda ctx, side: ((torch.zeros(5, *BATCH),), {})))
